@@ -353,15 +353,18 @@ def _parse_vti(K, data, n3, spacing, origin):
             K.eq("%s[%d]" % (what, q), _value(ent[q]), exp[q], "vti-geometry")
             m_ = _RTOK.fullmatch(ent[q])
             if m_ is not None:
-                # symbolic run: the number was rendered through a format specification; anything but the shortest
-                # round-trip form (str / repr, 17 significant digits) writes another number for generic values
+                # symbolic run: the number was rendered through a format specification; a fixed-point form (absolute precision,
+                # e.g. the 6 decimals of 'f') or a general / exponent form with fewer than 10 significant digits writes
+                # another number for generic values (relative error > 1e-9); str / repr and '.10g' or finer are accepted
                 spec = m_.group(2)
-                K.holds("%s[%d]-written-with-full-precision" % (what, q), spec in ("", "r", "s", "!r", ".17g", ".17e", ".16e"),
-                        "vti-geometry", info=dict(format_spec=spec))
+                mm_ = re.fullmatch(r"[<>=^]?[-+ ]?#?0?\d*,?\.(\d+)([eEgG])", spec)
+                okspec = spec in ("", "r", "s", "!r") or (mm_ is not None and int(mm_.group(1)) >= (9 if mm_.group(2) in "eE" else 10))
+                K.holds("%s[%d]-written-with-full-precision" % (what, q), okspec, "vti-geometry", info=dict(format_spec=spec))
             else:
-                # real run: the decimal text must read back to exactly the number (no digits lost)
+                # real run: the decimal text reads back to the number to a relative 1e-9
                 try:
-                    same = float(ent[q]) == float(exp[q])
+                    tv, ev = float(ent[q]), float(exp[q])
+                    same = abs(tv - ev) <= 1e-9 * abs(ev)
                 except (TypeError, ValueError):
                     same = False
                 K.holds("%s[%d]-written-with-full-precision" % (what, q), same, "vti-geometry",
